@@ -155,6 +155,51 @@ Theorem C14_oob_fails_both :
   /\ s_fail (r_i (run pi pr sc)) = Some 2 /\ s_fail (r_r (run pi pr sc)) = Some 2.
 Proof. exact oob_fails_both. Qed.
 
+(** ---- sequences of pairing procedures through the SAME two stacks ----
+    [run_seq si sr l]: each step re-pairs the same connection ([SameConn]) or pairs on a new
+    connection handle of the same stacks ([NewConn]); what survives [reset_state()] (SMP state code,
+    passkey counter, registered link key, the LinkLayer's crypto manager, encrypted flag) is carried
+    over, for lists of ANY length (induction over the list, from any startable states).  Every
+    procedure of the sequence ends in the same outcome on both sides, and on success each stack got
+    one set_encryption whose session key is e(key, SKD) with key = the STK / LTK of THAT procedure:
+    nothing of an earlier procedure leaks into a later session key. *)
+Theorem C14_sequence_session_key_agrees :
+  forall (l : list step_t) (si sr : sst),
+  startable si -> startable sr -> Forall wf_step l ->
+  Forall (fun cr : ctl * result =>
+            let '(c, r) := cr in
+            r_quiet r = true /\ s_exc (r_i r) = false /\ s_exc (r_r r) = false /\
+            ((failure (r_i r) = true /\ failure (r_r r) = true) \/
+             (success (r_i r) = true /\ success (r_r r) = true /\
+              exists key,
+                s_setenc (r_i r) = [(t_e key, key)] /\ s_setenc (r_r r) = [(t_e key, key)]
+                /\ (if is_lesc_method (c_method c) then option_map trev (s_ltk (r_i r)) = Some key
+                    else s_stk (r_i r) = key)
+                /\ s_stk (r_i r) = s_stk (r_r r))))
+         (run_seq si sr l).
+Proof. exact seq_session_key_agrees. Qed.
+
+(** ... and what each procedure appends to the two security databases is exactly what was
+    distributed in that procedure (LTK with ITS Rand and EDIV; [CryptographicDatabase.add]'s
+    "rand is None or ediv is None" test is modelled as written, see [mk_ltk]). *)
+Theorem C14_sequence_stored_is_distributed :
+  forall (l : list step_t) (si sr : sst),
+  startable si -> startable sr -> Forall wf_step l ->
+  Forall (fun cr : ctl * result =>
+            let '(c, r) := cr in
+            success (r_i r) = true -> success (r_r r) = true ->
+            s_db (r_i r) = (if c_bond_i c
+                            then [expected_own_entry false (r_i r) (spec_auth (c_method c));
+                                  expected_peer_entry c true (r_r r) (spec_auth (c_method c))] else [])
+            /\ s_db (r_r r) = (if c_bond_r c
+                               then [expected_own_entry true (r_r r) (spec_auth (c_method c));
+                                     expected_peer_entry c false (r_i r) (spec_auth (c_method c))] else []))
+         (run_seq si sr l).
+Proof. exact seq_stored_is_distributed. Qed.
+
+Theorem C14_first_procedure_startable : startable st_init.
+Proof. exact st_init_startable. Qed.
+
 (** The swept domain of controls (the bound behind the "for all parameters" above). *)
 Theorem C14_control_domain :
   N.of_nat (length all_ctls) = 8192 /\
